@@ -163,6 +163,6 @@ int main(int argc, char** argv) {
   vh::Args args(argc, argv);
   if (args.has("record")) return vh::RunRecorder(args.get("trace"), args.get("out"), [&]() { return Record(args); });
   // forked batches: a change that corrupts memory inside the graph must show as a fault of that case, not take the harness down
-  vh::IsoOptions iso; iso.faultProperty = "C14"; iso.batch = 4000; iso.watchdogSeconds = 10;
+  vh::IsoOptions iso; iso.faultProperty = "C14"; iso.batch = 4000; iso.watchdogSeconds = 90;
   return vh::Main(argc, argv, Replay, true, iso);
 }
